@@ -78,6 +78,15 @@ func init() {
 			[]string{"After", "validateCommand"})
 		g.callSeq(c06Group, dis, "SimulateScheduling", "simulateSchedulingCalls",
 			[]string{"Solve", "TruncateInstanceTypes", "Initialized", "NewUninitializedNodeError"})
+		// the launch cap: Results.TruncateInstanceTypes (every new NodeClaim cut to the cheapest MaxInstanceTypes options; a
+		// NodeClaim that then misses minValues is dropped and ITS PODS ARE REPORTED in the returned Results' PodErrors)
+		g.c06Outline(sch, "Results.TruncateInstanceTypes", "truncateResultsOutline")
+		g.c06Outline(cp, "InstanceTypes.Truncate", "truncateTypesOutline")
+		g.c06Cmps(sch, "Results.AllNonPendingPodsScheduled", "allNonPendingCmps")
+		// prices are per NodePool: BuildNodePoolMap asks the provider for EVERY NodePool's instance types and NewCandidate
+		// prices a node from its own NodePool's entry
+		g.c06Outline(dis, "BuildNodePoolMap", "buildNodePoolMapOutline")
+		g.callSeq(c06Group, dis, "NewCandidate", "newCandidateCalls", []string{"resolveNodePrice"})
 		g.callSeq(c06Group, dis, "MultiNodeConsolidation.firstNConsolidationOption", "firstNCalls",
 			[]string{"computeConsolidation", "filterOutSameInstanceType"})
 		g.callSeq(c06Group, dis, "MultiNodeConsolidation.ComputeCommands", "multiComputeCalls",
@@ -328,6 +337,98 @@ func (g *gen) c06Skeleton(pkgPath, fn, lean string) {
 		b.WriteString(leanStr(s))
 	}
 	b.WriteString("]\n\n")
+}
+
+// c06Outline emits the statements of a function in source order like c06Skeleton, with the right-hand side of an
+// assignment abbreviated to the called function (`f(…)`) when it is a call: WHERE a value is stored (which variable, map
+// or field) and under which guard, without pinning message texts or argument lists.
+func (g *gen) c06Outline(pkgPath, fn, lean string) {
+	_, fd := g.findFunc(pkgPath, fn)
+	if fd == nil {
+		return
+	}
+	var out []string
+	short := func(e ast.Expr) string {
+		if c, ok := e.(*ast.CallExpr); ok {
+			return types.ExprString(c.Fun) + "(…)"
+		}
+		return types.ExprString(e)
+	}
+	var walk func(list []ast.Stmt)
+	walk = func(list []ast.Stmt) {
+		for _, st := range list {
+			switch s := st.(type) {
+			case *ast.DeclStmt:
+				if gd, ok := s.Decl.(*ast.GenDecl); ok {
+					for _, sp := range gd.Specs {
+						if vs, ok := sp.(*ast.ValueSpec); ok {
+							for _, n := range vs.Names {
+								out = append(out, "var "+n.Name)
+							}
+						}
+					}
+				}
+			case *ast.RangeStmt:
+				k, v := "_", "_"
+				if s.Key != nil {
+					k = types.ExprString(s.Key)
+				}
+				if s.Value != nil {
+					v = types.ExprString(s.Value)
+				}
+				out = append(out, fmt.Sprintf("for %s, %s := range %s", k, v, types.ExprString(s.X)))
+				walk(s.Body.List)
+				out = append(out, "end")
+			case *ast.AssignStmt:
+				var l, r []string
+				for _, e := range s.Lhs {
+					l = append(l, types.ExprString(e))
+				}
+				for _, e := range s.Rhs {
+					r = append(r, short(e))
+				}
+				out = append(out, strings.Join(l, ", ")+" "+s.Tok.String()+" "+strings.Join(r, ", "))
+			case *ast.IfStmt:
+				out = append(out, "if "+types.ExprString(s.Cond))
+				walk(s.Body.List)
+				if s.Else != nil {
+					out = append(out, "else")
+					if eb, ok := s.Else.(*ast.BlockStmt); ok {
+						walk(eb.List)
+					} else {
+						out = append(out, "(other statement)")
+					}
+				}
+				out = append(out, "end")
+			case *ast.ReturnStmt:
+				var r []string
+				for _, e := range s.Results {
+					r = append(r, short(e))
+				}
+				out = append(out, "return "+strings.Join(r, ", "))
+			default:
+				out = append(out, "(other statement)")
+			}
+		}
+	}
+	walk(fd.Body.List)
+	recv := ""
+	if fd.Recv != nil && len(fd.Recv.List) == 1 {
+		recv = types.ExprString(fd.Recv.List[0].Type)
+		for _, n := range fd.Recv.List[0].Names {
+			recv = n.Name + " " + recv
+		}
+	}
+	b := g.out(c06Group)
+	fmt.Fprintf(b, "/-- outline of `%s.%s` (%s): statements in source order, calls abbreviated -/\ndef %s : List String := [", pkgPath, fn, g.pos(fd.Pos()), lean)
+	for i, s := range out {
+		if i > 0 {
+			b.WriteString(",")
+		}
+		fmt.Fprintf(b, "\n  %s", leanStr(s))
+	}
+	b.WriteString("]\n")
+	fmt.Fprintf(b, "/-- the receiver of `%s` (a value receiver is a COPY: what the function stores must reach the returned value) -/\ndef %sRecv : String := %s\n\n", fn, lean, leanStr(recv))
 }
 
 // c06Precedence: the composite literal `[]scheduling.Requirements{ReservedRequirement, SpotRequirement, OnDemandRequirement}`
